@@ -142,6 +142,9 @@ func VerifC13_ASCII() {
 // values and nesting (lists, empty items) through the strict round trip.
 func VerifC13_Values() {
 	vsymExpect("round-trip")
+	// the four joint option/header configurations in both tiers (the full products over these value
+	// tables ran past 15 minutes; the products are exercised by VerifC13_ASCII)
+	c13Joint = true
 	var it secs2.Item
 	switch vsymChoose(11) {
 	case 0:
